@@ -11,6 +11,8 @@ GATE_KINDS = [
     ('XOR2', 2), ('xor3', 3), ('XOR4', 4), ('XNOR2', 2), ('xnor3', 3), ('XNOR4', 4),
     ('AO21', 3), ('AO22', 4), ('OA21', 3), ('OA22', 4), ('AOI21', 3), ('aoi22', 4), ('OAI21', 3), ('oai22', 4),
     ('AO211', 4), ('OA211', 4), ('AOI211', 4), ('oai211', 4), ('MUX21', 3), ('mux21x1', 3), ('isolor', 2),
+    # generic (bench-style) names: ONE kind name used with several arities in one circuit and across the circuits of one process
+    ('and', 2), ('and', 4), ('nand', 2), ('nand', 3), ('or', 2), ('or', 4), ('nor', 3), ('nor', 2), ('xor', 2), ('xor', 3), ('xnor', 2), ('xnor', 4),
 ]
 VARIADIC = ('and', 'nand', 'or', 'nor', 'xor', 'xnor')
 
